@@ -1,6 +1,8 @@
 /* C13 correspondence harness: bels (STB 34.101.60) on the real library.
-   Protocol: see lean/Bee2V/C13/Drv.lean.  The first argument of every op is the word size the
-   line was generated for; it must equal B_PER_W of this build.
+   Protocol: see lean/Bee2V/C13/Drv.lean.  The first argument of every op is the word size W the
+   line was generated for (32 or 64): it is the parameter of the MODEL's bookkeeping; the library
+   uses its own B_PER_W, so a stream generated for one word size can be replayed on another build
+   (property C19) — all inputs and outputs are octet strings.
    The generator (gen_i) is a tape of octets: each call copies the next `count` octets, zeros
    once the tape is exhausted. */
 #include "bee2/defs.h"
@@ -44,7 +46,7 @@ static void handle(int argc, char** argv)
 {
 	const char* op = argc ? argv[0] : "";
 	size_t l1, l2, l3, l4;
-	if (argc < 3 || u_arg(argv[1]) != B_PER_W) { printf("bad-op"); return; }
+	if (argc < 3 || (u_arg(argv[1]) != 32 && u_arg(argv[1]) != 64)) { printf("bad-op"); return; }
 	if (strcmp(op, "stdm") == 0 && argc == 4)
 	{
 		size_t len = u_arg(argv[2]), num = u_arg(argv[3]);
@@ -153,3 +155,4 @@ static void handle(int argc, char** argv)
 }
 
 #include "common.h"
+#include "c13_hook.c"
